@@ -349,9 +349,11 @@ static int ex_region(char *loc, int *beg, int *end)
 			xrow = *end - 1;
 		loc++;
 	}
-	if (*beg < 0 && *end == 0)
+	if (*beg < 0 && *end == 0) {	/* address 0: in front of the first line */
 		*beg = 0;
-	else if (*end == *beg)		/* a reversed range such as 4,3 or 1,0 */
+		return 0;
+	}
+	if (*end == *beg)		/* a reversed range such as 4,3 or 1,0 */
 		return 1;
 	if (*beg < 0 || *beg >= lbuf_len(xb))
 		return 1;
@@ -545,7 +547,7 @@ static int ec_read(char *loc, char *cmd, char *arg, char *txt)
 	char *obuf;
 	int n = lbuf_len(xb);
 	path = arg[0] ? ex_pathexpand(arg, 1) : ex_path();
-	if ((ex_region(loc, &beg, &end) && (beg != 0 || end != 0)) || path == NULL)
+	if (ex_region(loc, &beg, &end) || path == NULL)
 		return 1;
 	pos = lbuf_len(xb) ? end : 0;
 	if (path[0] == '!') {
@@ -655,7 +657,7 @@ static int ec_insert(char *loc, char *cmd, char *arg, char *txt)
 {
 	int beg, end;
 	int n;
-	if (ex_region(loc, &beg, &end) && (beg != 0 || end != 0))
+	if (ex_region(loc, &beg, &end))
 		return 1;
 	if (cmd[0] == 'a')
 		if (end > beg)
@@ -738,7 +740,7 @@ static int ec_put(char *loc, char *cmd, char *arg, char *txt)
 	char *buf;
 	int n = lbuf_len(xb);
 	buf = reg_get(REG(arg), &lnmode);
-	if (!buf || (ex_region(loc, &beg, &end) && (beg != 0 || end != 0)))
+	if (!buf || ex_region(loc, &beg, &end))
 		return 1;
 	lbuf_edit(xb, buf, end, end);
 	xrow = MIN(lbuf_len(xb) - 1, end + lbuf_len(xb) - n - 1);
